@@ -141,7 +141,10 @@ namespace vf_coll
                 {
                     bool ok = e.arr ? p.try_deallocate_array(ptr, e.count, e.size) : p.try_deallocate_node(ptr, e.size);
                     if (!ok)
-                        viol("C08", key("C08", "refused-own"), "try_deallocate refused memory the collection handed out");
+                        {
+                            also_scope lost("C04", "C08"); // memory whose release is refused never comes back: capacity is lost
+                            viol("C08", key("C08", "refused-own"), "try_deallocate refused memory the collection handed out");
+                        }
                 }
                 else if (e.arr)
                     p.deallocate_array(ptr, e.count, e.size);
@@ -152,7 +155,10 @@ namespace vf_coll
             {
                 bool ok = e.arr ? ctr::try_deallocate_array(p, ptr, e.count, e.size, e.align) : ctr::try_deallocate_node(p, ptr, e.size, e.align);
                 if (!ok)
-                    viol("C08", key("C08", "refused-own"), "try_deallocate_%s refused memory the collection handed out", e.arr ? "array" : "node");
+                    {
+                        also_scope lost("C04", "C08"); // memory whose release is refused never comes back: capacity is lost
+                        viol("C08", key("C08", "refused-own"), "try_deallocate_%s refused memory the collection handed out", e.arr ? "array" : "node");
+                    }
             }
             else
             {
@@ -410,7 +416,10 @@ namespace vf_coll
             {
                 bool ok = member ? p.try_deallocate_node(q, s) : ctr::try_deallocate_node(p, q, s, 1);
                 if (!ok)
-                    viol("C08", key("C08", "refused-own"), "try_deallocate_node refused a node the collection handed out");
+                    {
+                        also_scope lost("C04", "C08"); // memory whose release is refused never comes back: capacity is lost
+                        viol("C08", key("C08", "refused-own"), "try_deallocate_node refused a node the collection handed out");
+                    }
             }
             u.src->check();
             if (!capped && p.pool_capacity_left(s) != v.size())
